@@ -2,7 +2,14 @@
 
 
 def fmt_item(r):
-    return f'({int(r[0] * 8)},{r[1]})'
+    t = r[1][0] if isinstance(r[1], tuple) else r[1]
+    return f'({int(r[0] * 8)},{t})'
+
+
+def T(t):
+    """a task object that is EQUAL to, but not identical with, every other T(t): items are compared
+    by equality (as the bound methods the library itself queues: `obj.stop == obj.stop`, two objects)"""
+    return tuple([int(t), 'task'])
 
 
 def run_history(ops):
@@ -13,9 +20,9 @@ def run_history(ops):
         w = line.split()
         try:
             if w[0] == 'add':
-                q.add(int(w[1]) / 8.0, int(w[2])); out.append('ok')
+                q.add(int(w[1]) / 8.0, T(w[2])); out.append('ok')
             elif w[0] == 'remove':
-                q.remove(int(w[1])); out.append('ok')
+                q.remove(T(w[1])); out.append('ok')
             elif w[0] == 'pop':
                 out.append(fmt_item(q.pop()))
             elif w[0] == 'peekS':
@@ -49,8 +56,12 @@ def run_shutdown(case):
     ran = []
     actions = {}
 
-    def make(t):
-        def action():
+    class Owner:
+        def __init__(self, t):
+            self.t = t
+
+        def action(self):
+            t = self.t
             ran.append(t)
             if len(ran) > 200:
                 raise RuntimeError('runaway shutdown')
@@ -59,12 +70,12 @@ def run_shutdown(case):
                     q.add(op[1] / 8.0, get(op[2]))
                 else:
                     q.remove(get(op[1]))
-        return action
 
     def get(t):
+        # a NEW bound-method object on every call (equal to the earlier ones), as `self.stop` is
         if t not in actions:
-            actions[t] = make(t)
-        return actions[t]
+            actions[t] = Owner(t)
+        return actions[t].action
     try:
         for p, t in case['adds']:
             q.add(p / 8.0, get(t))
@@ -101,9 +112,15 @@ def run_sched(case):
         def beats2secs(self, beats):
             return (self.offset + beats * self.scale) / 8.0
 
+    def body_a(): pass
+
+    def body_b(): pass
+
     class StubTask:
+        # like Routine: several task objects may be built from the same function (`func`)
         def __init__(self, t):
             self.t, self.n = t, 0
+            self.func = (body_a, body_b)[t % 2]
 
         def __awake__(self, clock):
             n = self.n
